@@ -301,7 +301,7 @@ class RepeatExact(Expression):
 
         match_count += 1
 
-        while True:
+        while match_count < self.number:
             state.checkpoint()
             state.parse_trivia(children)
             matched = self.expression.parse(state, children)
@@ -314,9 +314,6 @@ class RepeatExact(Expression):
             state.ok()
             accumulator.extend(children)
             children.clear()
-
-            if match_count == self.number:
-                break
 
         if match_count == self.number:
             pairs.extend(accumulator)
@@ -518,7 +515,7 @@ class RepeatMax(Expression):
 
         match_count += 1
 
-        while True:
+        while match_count < self.number:
             state.checkpoint()
             state.parse_trivia(children)
             matched = self.expression.parse(state, children)
@@ -531,9 +528,6 @@ class RepeatMax(Expression):
             state.ok()
             accumulator.extend(children)
             children.clear()
-
-            if match_count == self.number:
-                break
 
         if match_count <= self.number:
             pairs.extend(accumulator)
@@ -620,7 +614,7 @@ class RepeatMinMax(Expression):
 
         match_count += 1
 
-        while True:
+        while match_count < self.max:
             state.checkpoint()
             state.parse_trivia(children)
             matched = self.expression.parse(state, children)
@@ -633,9 +627,6 @@ class RepeatMinMax(Expression):
             state.ok()
             accumulator.extend(children)
             children.clear()
-
-            if match_count == self.max:
-                break
 
         if match_count >= self.min and match_count <= self.max:
             pairs.extend(accumulator)
